@@ -353,7 +353,7 @@ def _compile(g):
 
 def main(tier):
     run = check.Run(PID, tier)
-    check.JOB_BUDGET[0] = 240 if tier == 'quick' else 3000
+    check.JOB_BUDGET[0] = 240 if tier == 'quick' else 1500
     B = G.BASIC
     groups = [B["SO2"], B["SO3"], B["SE2"], B["C1"]] + ([B["SE3"], G.Bundle([B["SO3"], G.Tn(3)])] if tier == "thorough" else [])
     check.run_jobs([(_compile, (g,)) for g in groups + ([B["SE3"]] if tier == "quick" else [])])
@@ -368,7 +368,7 @@ def main(tier):
     if tier == "quick":
         # SE3: the two exp Hessians row by row under the quick budget (inverse Hessians are thorough-only)
         jobs += [(job, (B["SE3"], fn, tier, [i])) for fn in ["d2r_exp"] for i in range(6)]
-    run.extend(check.run_jobs(jobs, timeout=900 if tier == "quick" else 7200))
+    run.extend(check.run_jobs(jobs, timeout=900 if tier == "quick" else 1800))
     run.bounds += ["groups: " + ", ".join(g.name for g in groups) + (" + SE3 d2r_exp" if tier == "quick" else ""),
                    "rotation norm^2 < 9.8633 (= (pi-1e-3)^2)", "per-obligation time budget %ds (exceeded -> undecided, never success)" % (15 if tier == "quick" else 240)]
     run.assumptions += ["layer R", "C04 oracle J (derivative of the Hermite matrix exponential)"]
